@@ -60,6 +60,10 @@ func (e *RunErr) Error() string { return e.Msg }
 // Budget is raised when the step budget is exhausted.
 type Budget struct{}
 
+// TooBig is raised when a value outgrows what the monitors are willing to
+// build (the real run is then skipped).
+type TooBig struct{}
+
 // Unspecified is raised (as a panic, recovered by Run) when the program
 // reaches behaviour that neither the documents nor the properties fix; the
 // case is then not compared.
@@ -107,6 +111,7 @@ type Outcome struct {
 	Events      []Event
 	Unspecified string // non-empty: do not compare
 	Budget      bool
+	TooBig      bool // a value outgrew 1 MiB: do not run the real code on this case
 	Shared      *Shared
 }
 
@@ -127,6 +132,9 @@ func Run(prog *Program, name string, pt *Point, budget int64) (out Outcome) {
 				out.Unspecified = x.Why
 			case Budget:
 				out.Budget = true
+			case TooBig:
+				out.Budget = true
+				out.TooBig = true
 			default:
 				panic(r)
 			}
@@ -561,6 +569,9 @@ func Arith(op string, l, r Val) (Val, string) {
 	}
 	if l.T == TStr || r.T == TStr {
 		if op == "+" && l.T == TStr && r.T == TStr {
+			if len(l.V.(string))+len(r.V.(string)) > 1<<20 {
+				panic(TooBig{})
+			}
 			return Val{l.V.(string) + r.V.(string), TStr}, ""
 		}
 		return Void, fmt.Sprintf("unsupported operand types for %s: %s and %s", op, l.T, r.T)
